@@ -375,6 +375,20 @@ def _json_structure_faults(tv0: TokenView, other_algs):
                     e["header"] = h
                     return True
                 yield mk("move_to_unprotected", "%s moved from protected[%d] to header" % (name, i), move)
+        if isinstance(p, dict):
+            for name in list(p):
+                def shadow_pairs(tv, i=i, name=name):
+                    # the unprotected header arrives as an array of [name, value] pairs naming a signed member: whatever the
+                    # receiver makes of it, the member it reports is the signed one
+                    q = tv.protected_obj(i)
+                    e = tv.entries()[i]
+                    if not isinstance(q, dict) or name not in q or name in ("b64", "crit"):
+                        return False
+                    other = (q[name] + "-unsigned") if isinstance(q[name], str) and name != "alg" else q[name]
+                    h = e.get("header") or {}
+                    e["header"] = [[k, v] for k, v in h.items()] + [[name, other]]
+                    return True
+                yield mk("shadow_by_pairs", "header[%d] := array of pairs re-stating the signed %s" % (i, name), shadow_pairs)
         for alg in other_algs + ["none"]:
             def add_alg(tv, i=i, alg=alg):
                 e = tv.entries()[i]
